@@ -28,7 +28,7 @@ CHECKS = {
             "own state, not captured caller data (PU-CAPT, decided from every store to the attribute in the class hierarchy), a "
             "clock reading that only reaches logging calls — also through parameters of helpers — is no source of "
             "non-repeatability (PU-RNG). "
-            "PU-SHARE: a mutable module-level object, or a mutable entry of a module-level table, is not stored on an instance or returned without a copy. PU-FLAGS: the writeable flag of a caller's array (an effect on the array object, not a write: fresh views do not count) is put back in a finally, faithfully. PU-CACHE also covers a setter that is bypassed (pattern F), identity-keyed caches validated against the contents (pattern G: the record must hold a private copy) and a cached_property over what a later fit / set_params changes (pattern H); collections.* / weakref containers at module level are module state. PU-LAZY: every public method of the two landscape classes, "
+            "PU-SHARE: a mutable module-level object, or a mutable entry of a module-level table, is not stored on an instance or returned without a copy. PU-FLAGS: the writeable flag of a caller's array (an effect on the array object, not a write: fresh views do not count) is put back in a finally, faithfully. PU-CACHE also covers a setter that is bypassed (pattern F), identity-keyed caches validated against the contents (pattern G: the record must hold a private copy) and a cached_property over what a later fit / set_params changes (pattern H); PU-ALIAS: no in-place write into an attribute of `self.copy()` that copy() leaves shared with the original; collections.* / weakref containers at module level are module state. PU-LAZY: every public method of the two landscape classes, "
             "and every module-level function handed a landscape, reads what compute_landscape stores lazily (critical_pairs / values / max_depth, read off its stores) only behind the computation. "
             "Declines: bit-identical repeatability of floating-point results.",
             "Trusted: the copy/view/mutator table for external callables in pst/core/own.py; user-supplied weight/kernel "
@@ -61,7 +61,7 @@ CHECKS.update({
             "candidate for every n and every position of it. Declines: that Hopcroft-Karp finds a maximum matching, float ties.",
             SYMNOTE + "Hopcroft-Karp returns a maximum matching (dict with both directions).", "DESIGN.md §4 C01"),
     "C02": (True, "symbolic abstract interpretation to normal forms (rotation constants folded, blocks, solver wiring)",
-            CLAUSE + "Decides WS-DTYPE (no cast of one diagram to the other's dtype, no float store into a diagram-typed array, no arithmetic between the two diagrams in their own integer dtype), WS-SHORT (no short cut on column-wise sorted diagrams), ST-CACHE (module-level memo caches and class-level memo tables written by the analysed code are keyed by everything they depend on; a public class does not answer from a constructor-time snapshot of a plain public attribute; a setter that invalidates derived state is not bypassed; no cached_property over re-assignable state — run by every check), WS-COST, WS-TILE, WS-FILTER/WARN, WS-SOLVE, WS-EMPTY (empty and all-infinite diagrams), IT-ONCE (no one-shot "
+            CLAUSE + "Decides WS-DTYPE (no cast of one diagram to the other's dtype, no float store into a diagram-typed array, no arithmetic between the two diagrams in their own integer dtype), WS-SHORT (no short cut on column-wise sorted diagrams), ST-CACHE (module-level memo caches and class-level memo tables written by the analysed code are keyed by everything they depend on; a public class does not answer from a constructor-time snapshot of a plain public attribute; a setter that invalidates derived state is not bypassed; no cached_property over re-assignable state — run by every check), ST-ALIAS (no in-place write into an attribute of `self.copy()` that the class's copy() leaves shared — run by every check), WS-COST, WS-TILE, WS-FILTER/WARN, WS-SOLVE, WS-EMPTY (empty and all-infinite diagrams), IT-ONCE (no one-shot "
             "iterator is consumed twice on a path). Declines: optimality of the Hungarian "
             "solver, conditioning.", SYMNOTE + "linear_sum_assignment minimises over perfect assignments.",
             "DESIGN.md §4 C02"),
